@@ -84,6 +84,34 @@ def run(replay=None):
                              {"program": p.text(), "command": p.lines[cmd - 1], "detail": out[0]})
             if len(samples) < 3:
                 samples.append({"command": p.lines[cmd - 1], "answer": out[0]})
+    # ---- tie for the lattice-boundary theorems (C04_dc_quads_are_boundary_edges): on a uniform grid the
+    # implementation's dual-contouring mesh has two triangles per lattice edge joining a filled to an empty point
+    gprogs = []
+    for k in range(10 if quick else 200):
+        p = meshgen.closed_solid(rng, f"b{k}", rotate=rng.random() < 0.5)
+        level = rng.choice([2, 3, 3, 4])
+        p.q = p.ncmd + 1
+        p.emit(f"dcgrid {p.root} {level} {box} {rng.choice([1, 4, 8])}")
+        gprogs.append((p, level))
+    gout, _ = common.run_cases_sharded(exe_h, [p.text() for p, _ in gprogs], shards=8, timeout=900, single_timeout=300)
+    G = parse_out(gout)
+    stats["grid_cases"] = 0; stats["grid_boundary_edges"] = 0
+    for p, level in gprogs:
+        l = [x for x in G.get((p.cid, p.q), []) if x.startswith("DG ")]
+        if not l:
+            continue
+        head, pts = l[0].split(" filled=")
+        f = dict(x.split("=", 1) for x in head.split()[1:])
+        if int(f["zero"]) or not pts.strip():
+            continue
+        S = set(tuple(int(c) for c in t.split(",")) for t in pts.split())
+        edges = sum(1 for (i, j, k2) in S for d in ((1, 0, 0), (0, 1, 0), (0, 0, 1), (-1, 0, 0), (0, -1, 0), (0, 0, -1))
+                    if (i + d[0], j + d[1], k2 + d[2]) not in S)
+        stats["grid_cases"] += 1; stats["grid_boundary_edges"] += edges
+        if int(f["tris"]) != 2 * edges or f["closed"] != "1":
+            ck.violation("correspondence", "uniform-grid dual contouring: the mesh is not two triangles per filled-empty lattice edge "
+                         f"({f['tris']} triangles, {edges} boundary edges, closed={f['closed']})",
+                         {"program": p.text(), "detail": l[0][:300], "theorem_or_stage": "correspondence:dc-boundary-edges"}, no_input=True)
     # the recorded finding: dual contouring places QEF vertices without bounds
     corpus = os.path.join(common.VERIF, "check", "corpus", "c04_dc_vertex_outside_region.txt")
     rc, cout, _ = common.run_prog(exe_h, open(corpus).read(), timeout=300)
